@@ -128,6 +128,37 @@ def scan() -> list[tuple[str, str, str]]:
                             written.add((m, t.value.id))
                     if isinstance(t, ast.Attribute) and isinstance(t.value, ast.Name) and t.value.id in classes:
                         written.add(("*", f"{t.value.id}.{t.attr}"))
+    # writes to a class attribute from inside a function: cls.x = .., type(self).x = .., self.__class__.x = .., ClassName.x = ..
+    # (state shared by every instance, hence by every call and thread, whether or not the attribute is declared in the class body)
+    allclasses = {n.name for t in trees.values() for n in ast.walk(t) if isinstance(n, ast.ClassDef)}
+    for mod, tree in trees.items():
+        for cls in [n for n in ast.walk(tree) if isinstance(n, ast.ClassDef)]:
+            for fn in [n for n in ast.walk(cls) if isinstance(n, (ast.FunctionDef, ast.AsyncFunctionDef))]:
+                for node in ast.walk(fn):
+                    tg = []
+                    if isinstance(node, ast.Assign):
+                        tg = node.targets
+                    elif isinstance(node, (ast.AugAssign, ast.AnnAssign)):
+                        tg = [node.target] if not (isinstance(node, ast.AnnAssign) and node.value is None) else []
+                    elif isinstance(node, ast.Delete):
+                        tg = node.targets
+                    for t in tg:
+                        for t1 in (t.elts if isinstance(t, (ast.Tuple, ast.List)) else [t]):
+                            if not isinstance(t1, ast.Attribute):
+                                continue
+                            v = t1.value
+                            through_class = (isinstance(v, ast.Name) and v.id == "cls") or \
+                                (isinstance(v, ast.Attribute) and v.attr == "__class__") or \
+                                (isinstance(v, ast.Call) and isinstance(v.func, ast.Name) and v.func.id == "type")
+                            if through_class:
+                                items.append((mod, f"{cls.name}.{t1.attr}", "class-attr-written"))
+        for node in ast.walk(tree):
+            if isinstance(node, (ast.FunctionDef, ast.AsyncFunctionDef)):
+                for sub in ast.walk(node):
+                    tg = sub.targets if isinstance(sub, ast.Assign) else ([sub.target] if isinstance(sub, ast.AugAssign) else [])
+                    for t in tg:
+                        if isinstance(t, ast.Attribute) and isinstance(t.value, ast.Name) and t.value.id in allclasses:
+                            items.append((mod, f"{t.value.id}.{t.attr}", "class-attr-written"))
     out = []
     for mod, name, kind in items:
         if kind == "mod-mutable" and (mod, name) in written:
